@@ -560,7 +560,7 @@ Section RunExact.
     destruct (visit_success_all_valid G gadd gopp gscale gvalid dl sc i st log s t n Hs Hok) as [_ Hall].
     rewrite (visit_fit G gadd gopp gscale gvalid dl sc i st log s t n Hs). simpl. split; [|reflexivity].
     pose proof (all_valid_get dl _ _ n v nw Hall Hn) as Hc.
-    unfold cand_valid, cand in Hc. rewrite Hf in Hc. simpl in Hc.
+    unfold cand_valid, cand, cand_v in Hc. rewrite Hf in Hc. simpl in Hc.
     apply (update_exact G gadd gopp gzero gscale gvalid GL i dl n st v nw Hi Hf Hn Hv Hc).
   Qed.
 End RunExact.
